@@ -260,6 +260,7 @@ CURATED = {
     "ortho89": "C(O(l,l,l,l,l,l,l,C(l,l)),O(l,l,l,l,l,l,l,l,R(l,l)),l)",
     "nestedortho": "C(O(O(l,l),C(l,l)),l)",
     "orthodeep": "O(C(C(l,C(l,l)),l),l)",
+    "orthospine": "C(O(C(l,C(l,l)),l),l)",
     "wide5": "C(l,C(l,l),l,R(l,l),l)",
     "wide7": "C(C(l,l),l,l,l,R(l,l),l,l)",
     "width1": "C(C(l),O(l),l)",
